@@ -1,8 +1,8 @@
 #!/bin/bash
 # development aid: run every registered check at a tier, print one line each
-tier="${1:-quick}"
+tier="${1:-quick}"; first="${2:-1}"
 cd "$(dirname "$0")"
-for i in $(seq -w 1 20); do
+for i in $(seq -w $first 20); do
   id="C$i"
   s=$(date +%s)
   out=$(./check $id --tier $tier 2>&1); rc=$?
